@@ -38,6 +38,8 @@ pub trait Tab {
     /// `Clone::clone_from` (an impl may override it separately from `clone`)
     fn clone_from_dyn(&mut self, other: &dyn Tab);
     fn eq_dyn(&self, other: &dyn Tab) -> bool;
+    /// `!=` (PartialEq::ne can be overridden separately from eq)
+    fn ne_dyn(&self, other: &dyn Tab) -> bool;
     fn as_any(&self) -> &dyn Any;
     fn transform(&self, g: &dyn Fn(KeyPos, &Val) -> Val) -> Box<dyn Tab>;
     fn hash64(&self) -> u64;
@@ -110,6 +112,12 @@ macro_rules! c10_glue {
                 match other.as_any().downcast_ref::<$table<$crate::c10::Val>>() {
                     Some(o) => self == o,
                     None => false,
+                }
+            }
+            fn ne_dyn(&self, other: &dyn $crate::c10::Tab) -> bool {
+                match other.as_any().downcast_ref::<$table<$crate::c10::Val>>() {
+                    Some(o) => self != o,
+                    None => true,
                 }
             }
             fn as_any(&self) -> &dyn ::std::any::Any { self }
@@ -686,6 +694,10 @@ impl<'a> Exec<'a> {
                     if got != want {
                         return Err(fail("eq", want.to_string(), got.to_string()));
                     }
+                    let got_ne = catch(|| slots[a].real.ne_dyn(&*slots[b].real)).map_err(|m| fail("panic", "no panic".into(), m))?;
+                    if got_ne == want {
+                        return Err(fail("eq", format!("a != b is {}", !want), format!("a != b is {}", got_ne)));
+                    }
                     if want {
                         let (ha, hb) = (slots[a].real.hash64(), slots[b].real.hash64());
                         if ha != hb {
@@ -721,6 +733,10 @@ impl<'a> Exec<'a> {
                         self.note(|| format!("{} (key #{}) -> differing: {} {}", op.line(), p, a, b));
                         if a || b {
                             return Err(fail("eq", format!("tables differing only in slot #{} compare unequal", p), "equal".into()));
+                        }
+                        let (na, nb) = catch(|| (s.real.ne_dyn(&*tmp), tmp.ne_dyn(&*s.real))).map_err(|m| fail("panic", "no panic".into(), m))?;
+                        if !(na && nb) {
+                            return Err(fail("eq", format!("a != b is true for tables differing only in slot #{}", p), "a != b is false".into()));
                         }
                         catch(|| tmp.set(p, orig.clone())).map_err(|m| fail("panic", "no panic".into(), m))?;
                         let (a, b) = catch(|| (s.real.eq_dyn(&*tmp), tmp.eq_dyn(&*s.real))).map_err(|m| fail("panic", "no panic".into(), m))?;
